@@ -5,7 +5,7 @@ import OjgVerif.Gen.Reflect
 Go types are data; `Reflect/Registry.lean` models `alt/recomposer.go` (`registerComposer`,
 `indexType`, `recomp`, `setValue`, `recompAny`) with the registry keyed as the code keys it: bare
 type name AND `pkgpath/name`. The flag `bareName` of the model is `false` for the code as it is NOW
-(/repo a720b7c: a composer found under a name is used only for the type it was made for — 6d5fecb —
+(since /repo a720b7c: a composer found under a name is used only for the type it was made for — 6d5fecb —
 and the field walk of `registerComposer` unwraps containers completely — a720b7c;
 `current_lookup_in_source` ties that to the source) and `true` for the code BEFORE 6d5fecb (lookup by
 bare name, one level of unwrapping; the trees between the two commits are not modelled).
